@@ -114,7 +114,7 @@ class Amuset(probe.Contract):
             if condV > 1e5 or float(s[0] / s[kept - 1]) > 1e6:
                 c.skip('amuset_eigenproblem_ill_conditioned')
                 continue
-            tol = 1e-7 * sc * max(1.0, condV)
+            tol = 1e-9 * sc * max(1.0, condV) * max(1.0, 1e-2 * float(s[0] / s[kept - 1]))
             cplx_pairs = bool(np.any(np.abs(nzw.imag) > 1e-9 * sc))
             # library list = real parts of the non-zero eigenvalues, plus (approximately) zero entries for the zero
             # eigenvalues of the reduced matrix
